@@ -1,6 +1,7 @@
 // C06 - loss, duplication or reordering never yields a corrupted packet; the decoder recovers on its own.
 // Fault injection over generated streams + exhaustive single (thorough: double) faults on small streams.
 #include "../common/frames.h"
+#include "../common/gen_frames.h"
 
 using namespace vf;
 
@@ -490,7 +491,8 @@ static Case genBase(int tier, bool small)
     Case c;
     c.viaEncoder = *rc::gen::weightedElement<uint8_t>({{3, 0}, {1, 1}});
     int nEp = *range<int>(1, 3);
-    static const std::pair<uint16_t, uint8_t> alphabet[] = {{1, 0}, {1, 5}, {2, 0}};
+    // plain endpoints, or (a third of the cases) a base endpoint plus endpoints a key / hash / comparison could confuse with it
+    const auto alphabet = genEndpointAlphabet();
     for (int e = 0; e < nEp; ++e)
     {
         EpSpec ep;
